@@ -23,6 +23,9 @@ pub enum Op {
     SetChannel(u8),
     /// session index; true = last request lies further back than the session timeout, false = just now
     Elapse(u8, bool),
+    /// ActivateSession (anonymous) or CloseSession (second field true) under a token that belongs to no session: 1 forged
+    /// random token, 2 null, 3 the session *id* of session s used as token
+    SessionServiceWithForeignToken(u8, bool, u8),
 }
 
 const N_KINDS: u8 = 9;
@@ -52,6 +55,7 @@ fn op_strategy() -> impl Strategy<Value = Op> {
         12 => (0u8..N_KINDS, sidx(), prop_oneof![8 => Just(0u8), 1 => 1u8..5]).prop_map(|(k, s, t)| Op::Service(k, s, t)),
         1 => prop_oneof![2 => Just(0u8), 1 => 1u8..3].prop_map(Op::SetChannel),
         1 => (sidx(), prop_oneof![2 => Just(false), 1 => Just(true)]).prop_map(|(s, e)| Op::Elapse(s, e)),
+        2 => (sidx(), any::<bool>(), 1u8..4).prop_map(|(s, close, t)| Op::SessionServiceWithForeignToken(s, close, t)),
     ]
 }
 
@@ -251,6 +255,31 @@ fn run(ctx: &Ctx, ops: &Vec<Op>) -> PResult {
                 if ok {
                     m.closed = true;
                     m.activated = false;
+                }
+            }
+            Op::SessionServiceWithForeignToken(s, close, tok) => {
+                let token = match (sessions.is_empty(), tok) {
+                    (false, 3) => sessions[*s as usize % sessions.len()].id.clone(),
+                    (_, 2) => NodeId::null(),
+                    _ => NodeId::new(0, ByteString::from(vec![0xA5u8; 32])),
+                };
+                let before = sessions.iter().map(|m| { let h = m.handle.read(); (h.is_activated(), h.is_terminated()) }).collect::<Vec<_>>();
+                let accepted = if *close {
+                    let h = conn.header(&token);
+                    matches!(ctx.guard(|| conn.call(CloseSessionRequest { request_header: h, delete_subscriptions: true }))?, SupportedMessage::CloseSessionResponse(_))
+                } else {
+                    ctx.guard(|| conn.activate(&token, Conn::anonymous_token()))?.is_good()
+                };
+                ctx.class("session_service_with_a_token_of_no_session");
+                if accepted {
+                    return ctx.fail(
+                        if *close { "close/foreign-token-accepted" } else { "activate/foreign-token-accepted" },
+                        format!("step {}: {} under token kind {} (no session of this connection has that token) was answered with success", i, if *close { "CloseSession" } else { "ActivateSession" }, tok),
+                    );
+                }
+                let after = sessions.iter().map(|m| { let h = m.handle.read(); (h.is_activated(), h.is_terminated()) }).collect::<Vec<_>>();
+                if before != after {
+                    return ctx.fail("foreign-token/changed-a-session", format!("step {}: a refused request under a foreign token changed the sessions: {:?} -> {:?}", i, before, after));
                 }
             }
             Op::SetChannel(n) => {
